@@ -7,7 +7,7 @@ CONSTANTS
   Limit = 3
   Window = 4
   MaxRound = 3
-  MaxSnaps = 8
+  MaxSnaps = 6
   MaxEarly = 1
   Late = {}
   MaxPub = 1
@@ -15,8 +15,8 @@ CONSTANTS
   Interleave = FALSE
   Faults = FALSE
   RefChoice = FALSE
-  RemoteAnytime = FALSE
-  Eager = TRUE
+  RemoteAnytime = TRUE
+  Eager = FALSE
   Track = FALSE
 VIEW View
 INVARIANT TypeOK
